@@ -4,10 +4,11 @@ import json,os,re,glob
 missed={'C04-s1','C05-s1','C07-s1','C10-s1','C13-s1','C09-s2','C10-s2','C14-s2','C04-s3','C07-s3','C12-s3','C16-s3','C17-s3','C03-s4','C07-s4','C09-s4','C11-s4','C14-s4','C03-s5','C05-s5','C07-s5','C10-s5','C11-s5','C13-s5','C16-s5','C17-s5',
  'C02-s6','C03-s6','C04-s6','C05-s6','C06-s6','C07-s6','C09-s6','C10-s6','C11-s6','C12-s6','C14-s6','C15-s6','C16-s6','C17-s6',
  'C02-s7','C04-s7','C05-s7','C06-s7','C07-s7','C09-s7','C10-s7','C11-s7','C12-s7','C13-s7','C14-s7','C15-s7',
- 'C01-s8','C02-s8','C03-s8','C04-s8','C05-s8','C06-s8','C07-s8','C08-s8','C10-s8','C12-s8','C13-s8','C15-s8','C16-s8','C17-s8'}
+ 'C01-s8','C02-s8','C03-s8','C04-s8','C05-s8','C06-s8','C07-s8','C08-s8','C10-s8','C12-s8','C13-s8','C15-s8','C16-s8','C17-s8',
+ 'C01-s9','C03-s9','C05-s9','C08-s9','C10-s9','C12-s9','C14-s9','C07-s9','C09-s9','C11-s9','C16-s9'}
 def short(t,n):
     t=' '.join(t.split())
-    t=re.sub(r'/tmp/wt/C\d\d[bc]?/','',t)
+    t=re.sub(r'/tmp/wt/C\d\d[a-z]?/','',t)
     t=re.sub(r'\((vfs|idm)/[a-z/_.]+\)','',t)
     if len(t)<=n: return t
     cut=t[:n]
